@@ -373,6 +373,13 @@ func (i *inserter[N]) cachedAggregator(
 		)
 	}
 
+	if _, drop := stream.Aggregation.(AggregationDrop); drop {
+		// A drop aggregation produces no stream. Do not let it occupy the
+		// cache entry of a stream with the same identity defined by another
+		// matching view: that view would silently be dropped as well.
+		return nil, 0, nil
+	}
+
 	id := i.instID(kind, stream)
 	// If there is a conflict, the specification says the view should
 	// still be applied and a warning should be logged.
